@@ -45,7 +45,7 @@ import (
 
 type v02Seen struct {
 	Method, Host, Path, RawQuery, Probe, Auth string
-	Body                                       []byte
+	Body                                      []byte
 }
 
 func (s v02Seen) String() string {
@@ -245,6 +245,11 @@ type v02Step struct {
 	N     int
 	Req   *v01HTTPReq // nil = probe
 	Probe *v01Op
+	// Pair != nil: Req is an exact auth request with rejected credentials whose Authenticate
+	// call is held open by the fake authenticator while Pair is sent on the same connection
+	// (two requests in flight; on a correct server the second waits or is served independently).
+	Pair   *v01HTTPReq
+	HoldMs int
 }
 
 type v02Case struct {
@@ -265,7 +270,9 @@ func (c *v02Case) render() string {
 	}
 	fmt.Fprintf(&b, " good=%q withAcceptedConnB=%v", c.GoodTokens, c.WithB)
 	for _, s := range c.Steps {
-		if s.Req != nil {
+		if s.Pair != nil {
+			fmt.Fprintf(&b, "\n  %d: [held in authenticator %dms] %s  ||  concurrently: %s", s.N, s.HoldMs, s.Req, s.Pair)
+		} else if s.Req != nil {
 			fmt.Fprintf(&b, "\n  %d: %s", s.N, s.Req)
 		} else {
 			fmt.Fprintf(&b, "\n  %d: %s", s.N, s.Probe)
@@ -358,7 +365,22 @@ func v02DrawCase(rt *rapid.T) *v02Case {
 			if bad == "\x00" {
 				bad = "nope"
 			}
-			st.Req = v01DrawHTTP(rt, label, good, bad, true, true)
+			if rapid.IntRange(0, 3).Draw(rt, name+"/pair") == 0 {
+				// concurrent pair: the first is an exact auth request whose (rejecting) authenticator call is held
+				st.Req = v01AuthReq(label, bad+"#"+label, rapid.SampledFrom([]string{"-", "0", "junk"}).Draw(rt, name+"/rx"), "")
+				if rapid.Bool().Draw(rt, name+"/pairexact") {
+					bad2 := v01BadToken(rt, c.GoodTokens, name+"/bad2")
+					st.Pair = v01AuthReq(label+"b", bad2+"#"+label+"b", "0", "pad")
+					if bad2 == "\x00" {
+						st.Pair.Header.Del("Hysteria-Auth")
+					}
+				} else {
+					st.Pair = v01DrawHTTP(rt, label+"b", good, bad, true, true)
+				}
+				st.HoldMs = rapid.IntRange(4, 15).Draw(rt, name+"/hold")
+			} else {
+				st.Req = v01DrawHTTP(rt, label, good, bad, true, true)
+			}
 		}
 		c.Steps = append(c.Steps, st)
 	}
@@ -398,6 +420,14 @@ func (c *v02Case) classify() (nt bool, fp string, classes []string) {
 			}
 			continue
 		}
+		if s.Pair != nil {
+			set["concurrent-with-held-auth"] = true
+			set["concurrent-with-held-auth:second="+v02Wrongness(s.Pair)] = true
+			parts = append(parts, "||"+s.Pair.Method+"/"+v02Wrongness(s.Pair)+"/"+v02Creds(s.Pair, c.GoodTokens))
+			if custom {
+				nt = true
+			}
+		}
 		w := v02Wrongness(s.Req)
 		cr := v02Creds(s.Req, c.GoodTokens)
 		set["wrong="+w] = true
@@ -433,7 +463,32 @@ func v02RunOnce(c *v02Case, cnt *v02Counters) (violation, inconclusive string) {
 		c.Spec.mu.Unlock()
 		masq = c.Spec
 	}
-	env := v01NewEnv(v01EnvCfg{GoodTokens: c.GoodTokens, Masq: masq})
+	// harness-owned yield point: the first request of a pair parks inside Authenticate until
+	// the second one was handed to the client (cap 300 ms) + HoldMs
+	entered := map[string]chan struct{}{}
+	sent := map[string]chan struct{}{}
+	holdMs := map[string]int{}
+	for _, s := range c.Steps {
+		if s.Pair != nil {
+			entered[s.Req.ID] = make(chan struct{})
+			sent[s.Req.ID] = make(chan struct{})
+			holdMs[s.Req.ID] = s.HoldMs
+		}
+	}
+	hook := func(token string) {
+		id := token
+		if i := strings.LastIndexByte(id, '#'); i >= 0 {
+			id = id[i+1:]
+		}
+		ch, ok := entered[id]
+		if !ok {
+			return
+		}
+		v01CloseOnce(ch)
+		v01WaitCap(sent[id], 300*time.Millisecond)
+		time.Sleep(time.Duration(holdMs[id]) * time.Millisecond)
+	}
+	env := v01NewEnv(v01EnvCfg{GoodTokens: c.GoodTokens, Masq: masq, AuthHook: hook})
 	a, err := v01Dial(env, 0)
 	if err != nil {
 		env.Close()
@@ -457,6 +512,17 @@ func v02RunOnce(c *v02Case, cnt *v02Counters) (violation, inconclusive string) {
 	go func() {
 		defer wg.Done()
 		for _, s := range c.Steps {
+			if s.Pair != nil {
+				var r1 v01HTTPResp
+				d1 := make(chan struct{})
+				go func() { r1 = a.do(s.Req); close(d1) }()
+				v01WaitCap(entered[s.Req.ID], 2*time.Second) // first request is inside Authenticate
+				v01CloseOnce(sent[s.Req.ID])
+				r2 := a.do(s.Pair)
+				<-d1
+				obsA = append(obsA, v02Obs{Conn: 0, Step: s.N, Req: s.Req, Resp: r1}, v02Obs{Conn: 0, Step: s.N, Req: s.Pair, Resp: r2})
+				continue
+			}
 			if s.Req != nil {
 				obsA = append(obsA, v02Obs{Conn: 0, Step: s.N, Req: s.Req, Resp: a.do(s.Req)})
 				continue
@@ -500,16 +566,21 @@ func v02RunOnce(c *v02Case, cnt *v02Counters) (violation, inconclusive string) {
 				return
 			}
 			for _, s := range c.Steps {
-				if s.Req == nil {
-					continue
+				for k, src := range []*v01HTTPReq{s.Req, s.Pair} {
+					if src == nil {
+						continue
+					}
+					q := *src
+					q.ID = fmt.Sprintf("c1-op%d", s.N)
+					if k == 1 {
+						q.ID += "b"
+					}
+					q.Header = src.Header.Clone()
+					if v := q.Header.Get("Hysteria-Auth"); v != "" {
+						q.Header.Set("Hysteria-Auth", v[:strings.LastIndexByte(v, '#')+1]+q.ID)
+					}
+					obsB = append(obsB, v02Obs{Conn: 1, Step: s.N, Req: &q, Resp: b.do(&q)})
 				}
-				q := *s.Req
-				q.ID = fmt.Sprintf("c1-op%d", s.N)
-				q.Header = s.Req.Header.Clone()
-				if v := q.Header.Get("Hysteria-Auth"); v != "" {
-					q.Header.Set("Hysteria-Auth", v[:strings.LastIndexByte(v, '#')+1]+q.ID)
-				}
-				obsB = append(obsB, v02Obs{Conn: 1, Step: s.N, Req: &q, Resp: b.do(&q)})
 			}
 		}()
 	}
